@@ -731,10 +731,14 @@ Proof.
   destruct (in_net6b a n len); [reflexivity|]. apply IH. exact Hrest.
 Qed.
 
+(** the tables of fromdomain.c are the documented networks (GenFilters.FD_NETS4/6 are read from the C source) *)
+Lemma fd_nets_documented : FD_NETS4 = DOC_NETS4 /\ FD_NETS6 = DOC_NETS6.
+Proof. split; reflexivity. Qed.
+
 Lemma fd_addr_doc u a : length a = 16 -> bytes_ok a -> fd_addr_hit u a = Some (doc_unroutable u a).
 Proof.
   intros Hl Ha. unfold fd_addr_hit, doc_unroutable, doc_private, doc_localhost.
-  destruct fd_nets_ok as [N4 N6].
+  destruct fd_nets_ok as [N4 N6]. destruct fd_nets_documented as [D4 D6]. rewrite <- D4, <- D6.
   assert (B1 : bit_set u FD_BIT_LOCALHOST = Z.testbit u 1) by (apply (bit_set_testbit u 1); lia).
   assert (B2 : bit_set u FD_BIT_PRIVATE = Z.testbit u 2) by (apply (bit_set_testbit u 2); lia).
   rewrite B1, B2.
